@@ -80,10 +80,11 @@ theorem never_local_on_follower (i : Input) (h : i.localOut = .notLeader) :
       cases i.remoteOut <;> simp
 
 /-- ∀ request kind and inputs: on "not leader", without `noForward`, with a known
-leader address, the request is forwarded exactly once: to that address, with the
+leader address, the PROXY makes exactly one call to the cluster client (how often the
+client then sends it is `executed_once_partial` below): to that address, with the
 same request, the caller's own credentials and timeout (and retries where the
 cluster call has them) — after the local attempt and the address lookup. -/
-theorem forward_once_with_callers_creds (i : Input) (a : String)
+theorem proxy_forwards_once_with_callers_creds (i : Input) (a : String)
     (h : i.localOut = .notLeader) (hf : i.noForward = false) (ha : i.addrOut = .addr a) :
     (run i).1 = [.localStore i.kind i.req, .leaderAddr,
       .remote i.kind i.req a i.creds i.timeout (if passesRetries i.kind then i.retries else 0)] := by
@@ -157,67 +158,136 @@ theorem forward_errors_reported (i : Input) (h : i.localOut = .notLeader) (hf : 
   · intro ha; simp [hf, ha]
   · intro a ha hr; simp [hf, ha, hr]
 
-/-! ### the answer returned belongs to the request (pooled inter-node connections) -/
+/-! ### pooled inter-node connections: the answer belongs to the request, and the leader
+executes a request once -/
 
-open RqModel.ClientPool in
+section Pool
+open RqModel.ClientPool
+
 /-- every pooled connection has nothing outstanding on it -/
-def Clean (st : ClientPool.PState) : Prop := ∀ c ∈ st.pool, c = []
+def Clean (st : PState) : Prop := ∀ c ∈ st.pool, c = []
 
-open RqModel.ClientPool in
 def answersOwn : List Op → List Res → Bool
   | [], [] => true
   | op :: ops, r :: rs => (r == .timeout || r == .ok op.tag) && answersOwn ops rs
   | _, _ => false
 
-open RqModel.ClientPool in
-theorem doOp_clean (st : PState) (h : Clean st) (op : Op) :
-    ((doOp false st op).1 = .timeout ∨ (doOp false st op).1 = .ok op.tag) ∧ Clean (doOp false st op).2 := by
-  have hput : ∀ (rest : List (List Nat)), (∀ x ∈ rest, x = []) → ∀ x ∈ rest ++ [[]], x = [] := by
-    intro rest hr x hx
-    simp only [List.mem_append, List.mem_singleton] at hx
-    rcases hx with hx | hx
-    · exact hr x hx
-    · exact hx
-  unfold doOp
-  cases hp : st.pool with
-  | nil =>
-    simp only [attempt]
-    cases hs : op.slow <;> cases hb : op.broadcast <;> simp [attempt, hs, hb, putBack, Clean]
-  | cons c rest =>
-    have hc : c = [] := h c (by simp [hp])
-    have hrest : ∀ x ∈ rest, x = [] := fun x hx => h x (by simp [hp, hx])
-    subst hc
+/-- number of times the command is written (= executed by the leader) for a plan -/
+def sends (op : Op) (pl : List Bool) : Nat := if op.slow then pl.length else min 1 pl.length
+
+theorem clean_putBack_nil (rest : List (List Nat)) (h : ∀ x ∈ rest, x = []) :
+    ∀ x ∈ rest ++ [[]], x = [] := by
+  intro x hx
+  simp only [List.mem_append, List.mem_singleton] at hx
+  rcases hx with hx | hx
+  · exact h x hx
+  · exact hx
+
+theorem takeConn_clean (fresh : Bool) (pool : List (List Nat)) (h : ∀ c ∈ pool, c = []) :
+    (takeConn fresh pool).1 = [] ∧ ∀ x ∈ (takeConn fresh pool).2, x = [] := by
+  unfold takeConn
+  cases fresh
+  · cases pool with
+    | nil => simp
+    | cons c r => exact ⟨h c (by simp), fun x hx => h x (by simp at hx; simp [hx])⟩
+  · exact ⟨rfl, h⟩
+
+theorem runAttempts_clean (op : Op) (pl : List Bool) : ∀ st : PState, Clean st →
+    ((runAttempts false op pl st).1 = .timeout ∨ (runAttempts false op pl st).1 = .ok op.tag) ∧
+    Clean (runAttempts false op pl st).2 ∧
+    (runAttempts false op pl st).2.executed = st.executed ++ List.replicate (sends op pl) op.tag := by
+  induction pl with
+  | nil => intro st h; simp [runAttempts, sends, h]
+  | cons fresh more ih =>
+    intro st h
+    obtain ⟨hc1, hc2⟩ := takeConn_clean fresh st.pool h
+    unfold runAttempts
+    generalize takeConn fresh st.pool = cr at hc1 hc2
+    obtain ⟨c, rest⟩ := cr
+    simp only at hc1 hc2
+    subst hc1
     simp only [attempt]
     cases hs : op.slow
-    · simp only [hs, Bool.false_eq_true, if_false, putBack]
-      exact ⟨by simp, hput rest hrest⟩
-    · cases hb : op.broadcast
-      · simp only [hs, hb, if_true, Bool.false_eq_true, if_false, putBack, attempt]
-        exact ⟨by simp, hrest⟩
-      · simp only [hs, hb, if_true, Bool.false_eq_true, if_false, putBack]
-        exact ⟨by simp, hrest⟩
+    · -- answered in time
+      simp only [Bool.false_eq_true, if_false, putBack, sends, hs, List.length_cons]
+      refine ⟨by simp, clean_putBack_nil _ hc2, ?_⟩
+      have : min 1 (more.length + 1) = 1 := by omega
+      simp [this]
+    · simp only [if_true, Bool.false_eq_true, if_false, putBack]
+      cases hm : more with
+      | nil =>
+        simp only [List.isEmpty_nil, if_true, sends, hs, List.length_cons, List.length_nil]
+        exact ⟨by simp, hc2, by simp⟩
+      | cons f2 m2 =>
+        simp only [List.isEmpty_cons, Bool.false_eq_true, if_false]
+        have hst' : Clean { pool := rest, executed := st.executed ++ [op.tag] } := hc2
+        obtain ⟨h1, h2, h3⟩ := ih _ hst'
+        rw [hm] at h1 h2 h3
+        refine ⟨h1, h2, ?_⟩
+        rw [h3]
+        simp only [sends, hs, if_true, List.length_cons, List.append_assoc]
+        simp [List.replicate_succ]
 
-open RqModel.ClientPool in
-/-- ∀ sequences of forwarded requests (any mix of requests the leader answers in time
-and requests that time out), starting from a pool with nothing outstanding: every
-answer the client returns is the answer to the request it was returned for, or a
-timeout error — never the answer to another request. -/
-theorem responses_belong_to_requests (ops : List Op) :
-    ∀ st : PState, Clean st → answersOwn ops (runOps false st ops) = true := by
+/-- ∀ sequences of forwarded requests and broadcasts (any mix of requests the leader
+answers in time and requests that time out, any `retries`), starting from a pool with
+nothing outstanding: every answer the client returns is the answer to the request it
+was returned for, or a timeout error — never the answer to another request. -/
+theorem responses_belong_to_requests (resend : Bool) (ops : List Op) :
+    ∀ st : PState, Clean st → answersOwn ops (runOps false resend st ops).1 = true := by
   induction ops with
   | nil => intro st _; rfl
   | cons op ops ih =>
     intro st h
-    obtain ⟨h1, h2⟩ := doOp_clean st h op
-    simp only [runOps, answersOwn, Bool.and_eq_true, Bool.or_eq_true, beq_iff_eq]
+    obtain ⟨h1, h2, _⟩ := runAttempts_clean op (plan resend op) st h
+    simp only [runOps, doOp, answersOwn, Bool.and_eq_true, Bool.or_eq_true, beq_iff_eq]
     exact ⟨by rcases h1 with h1 | h1 <;> simp [h1], ih _ h2⟩
 
-open RqModel.ClientPool in
 /-- why discarding matters: if a timed-out connection went back to the pool, the next
 request would be handed the previous request's answer -/
 theorem keep_on_timeout_witness :
-    runOps true {} [⟨1, true, false⟩, ⟨2, false, false⟩, ⟨3, false, false⟩] = [.timeout, .ok 1, .ok 1] ∧
-    runOps true {} [⟨1, true, true⟩, ⟨2, false, false⟩] = [.timeout, .ok 1] := by decide
+    (runOps true false {} [⟨1, true, false, 0⟩, ⟨2, false, false, 0⟩, ⟨3, false, false, 0⟩]).1 = [.timeout, .ok 1, .ok 2] ∧
+    (runOps true false {} [⟨1, true, true, 0⟩, ⟨2, false, false, 0⟩]).1 = [.timeout, .ok 1] := by decide
+
+/-- full statement of "executed once on the leader" for the inter-node client: whatever
+the requests, the leader executes exactly the requests forwarded, each once, in order.
+FALSE of the code: a caller that asks for retries gets the request re-sent after a
+timeout, and the leader executes it again. -/
+def executed_once_full : Prop :=
+  ∀ (ops : List Op) (st : PState), Clean st →
+    (runOps false false st ops).2.executed = st.executed ++ ops.map (·.tag)
+
+/-- ∀ sequences of forwarded requests in which no caller asked for retries (the HTTP
+API's default), answered in time or not: the leader executes each request exactly
+once, in the order forwarded. -/
+theorem executed_once_partial (ops : List Op) (hr : ∀ op ∈ ops, op.retries = 0) :
+    ∀ st : PState, Clean st →
+      (runOps false false st ops).2.executed = st.executed ++ ops.map (·.tag) := by
+  induction ops with
+  | nil => intro st _; simp [runOps]
+  | cons op ops ih =>
+    intro st h
+    obtain ⟨_, h2, h3⟩ := runAttempts_clean op (plan false op) st h
+    simp only [runOps, doOp]
+    rw [ih (fun o ho => hr o (by simp [ho])) _ h2, h3]
+    have hone : sends op (plan false op) = 1 := by
+      have := hr op (by simp)
+      unfold sends plan
+      cases op.broadcast <;> cases op.slow <;> simp [this]
+    simp [hone]
+
+/-- witness: one request with `retries = 1` whose answer is late is executed twice -/
+theorem executed_once_witness : ¬ executed_once_full := by
+  intro h
+  have := h [⟨1, true, false, 1⟩] {} (by intro c hc; simp at hc)
+  revert this
+  decide
+
+/-- the behaviour before the `fix:` commit: even with `retries = 0` a request whose
+answer was late was sent again on a new connection and executed twice -/
+theorem resend_after_timeout_witness :
+    (runOps false true {} [⟨1, true, false, 0⟩]).2.executed = [1, 1] := by decide
+
+end Pool
 
 /-- fact obligation: in cluster/client.go every error branch that follows a write to
 or a read from a pooled connection starts by marking the connection unusable, and
